@@ -53,6 +53,23 @@ def fail(key: str, fmt: str = "", *args: Any) -> None:
     raise Violation(key, (fmt % args) if args else fmt)
 
 
+def realize(x: Any) -> Any:
+    """Concretize a symbolic value (adds ``x == value`` to the path); identity in concrete runs."""
+    if symbolic():
+        from crosshair.core import deep_realize
+        return deep_realize(x)
+    return x
+
+
+def untraced(fn: Any, *args: Any) -> Any:
+    """Call ``fn`` on concrete values with CrossHair's tracing switched off (plain CPython speed)."""
+    if symbolic():
+        from crosshair.tracers import NoTracing
+        with NoTracing():
+            return fn(*args)
+    return fn(*args)
+
+
 def exception_key(exc: BaseException) -> str:
     """``<ExcType>@<file>:<function>`` of the innermost frame that lies in /repo."""
     tb = traceback.extract_tb(exc.__traceback__)
@@ -67,7 +84,15 @@ def exception_key(exc: BaseException) -> str:
             if "/site-packages/" not in fr.filename and "/lib/python" not in fr.filename:
                 where = os.path.basename(fr.filename) + ":" + fr.name
                 break
-    return f"{type(exc).__name__}@{where}"
+    extra = ""
+    if type(exc).__name__ == "ViolationError":
+        lines = [l.strip() for l in str(exc).splitlines() if l.strip()]
+        if lines:
+            head = lines[0]
+            func = head.rsplit(" in ", 1)[1].rstrip(":") if " in " in head else ""
+            cond = lines[1] if len(lines) > 1 else ""
+            extra = f"[{func}: {cond[:70]}]"
+    return f"{type(exc).__name__}@{where}{extra}"
 
 
 def file_sha(path: str) -> str:
